@@ -83,6 +83,143 @@ def analyse_cell(P, is_right, swap, reverse, vector):
 
 
 def check_link_cells(ctx, P, vectors, rule_of=None, floor_rule="R05.1"):
+    """Evaluate face 0 of a three-face table whose left and right links are of every combination of kinds
+    (swapped, reversed) and judge each side by its own kind; rule_of maps C05 rule ids to the caller's."""
+    from ..affsel import flatten_concat
+    from ..facepad import table_pair
+
+    rule_of = rule_of or (lambda r: r)
+    fi = P.func("padding:_pad_face_connections")
+    kinds = [(sw, rv) for sw in (False, True) for rv in (False, True)]
+    n_cells = 0
+    verdict = {}  # (side, swap, reverse, vector) -> {rule: message} or {}
+    for kl in kinds:
+        for kr in kinds:
+            for vector in vectors:
+                for swapped_dims in ((False, True) if vector else (False,)):
+                    tag = f"left {_kind(kl)}, right {_kind(kr)}, {vector or 'scalar'}" + (", components with different dimension order" if swapped_dims else "")
+                    try:
+                        outs = run(P, table_pair(kl, kr), vector=vector, n_faces=3, partner_dims_swapped=swapped_dims, prune=True)
+                    except Unmodelled as e:
+                        ctx.unknown(rule_of("R05.1"), tag, str(e))
+                        continue
+                    for o in outs:
+                        cells = [((False,) + kl, 1), ((True,) + kr, 2)]
+                        if o.kind != "return":
+                            for (is_right, swap, reverse), nb in cells:
+                                verdict.setdefault((is_right, swap, reverse, vector), {}).setdefault("R05.1", f"raises {o.value} (line {getattr(getattr(o.exc, 'node', None), 'lineno', '?')}) [{tag}]")
+                            continue
+                        try:
+                            faces, facedim, trim = face_parts(o.value)
+                            _, leaves = flatten_concat(faces[0], FACE, axis_of_dim)
+                            forms = [norm_form(p) for p in leaves]
+                        except Unmodelled as e:
+                            ctx.unknown(rule_of("R05.1"), tag, str(e))
+                            continue
+                        got_faces = [f.face for f in forms]
+                        for (is_right, swap, reverse), nb in cells:
+                            key = (is_right, swap, reverse, vector)
+                            pr = verdict.setdefault(key, {})
+                            if got_faces != [1, 0, 2]:
+                                pr.setdefault("R05.2", f"face 0 is assembled from faces {got_faces} (lower halo, interior, upper halo); expected [1, 0, 2] [{tag}]")
+                                continue
+                            t, e_orth, e_tang, _ = expected(is_right, swap, reverse)
+                            # the along-edge extent: AY is pre-padded iff some link of the table swaps axes
+                            along = L if (kl[0] or kr[0]) else N
+                            e_tang = Sel(0, 1, along) if not t["tang_flip"] else Sel(0, 1, along).slice(SliceV(None, None, -1))
+                            fs = forms[2] if is_right else forms[0]
+                            for k, v in _check_piece(fs, forms[1], swap, reverse, vector, t, e_orth, e_tang, along).items():
+                                pr.setdefault(k, v + f" [{tag}]")
+                            n_cells += 1
+    for (is_right, swap, reverse, vector), pr in sorted(verdict.items(), key=lambda kv: repr(kv[0])):
+        kind = f"{'right' if is_right else 'left'} side, {'swapped' if swap else 'same'} axis, {'reversed' if reverse else 'normal'}, {vector or 'scalar'}"
+        if pr:
+            for rule, msg in sorted(pr.items()):
+                ctx.report(rule_of(rule), fi, f"link kind: {kind}", msg)
+        else:
+            ctx.ok(rule_of("R05.1" if vector is None else "R05.5"), f"link kind: {kind}", "in every combination with the other side's link: source cells, depth and along-edge order, sign/partner as the orientation map demands")
+    ctx.floor(rule_of(floor_rule), "link cells evaluated (side x kind x other side's kind x input)", n_cells, 32 * len(vectors))
+    _self_link(ctx, P, fi, rule_of)
+
+
+def _kind(k):
+    return ("swapped" if k[0] else "same-axis") + ("/reversed" if k[1] else "")
+
+
+def _check_piece(fs, ft, swap, reverse, vector, t, e_orth, e_tang, along):
+    """fs: normal form of the halo piece, ft: of the kept interior of the target."""
+    pr = {}
+    tdim = [p for n_, p in ft.names.items() if axis_of_dim(p) == AX]
+    if ft.sel[tdim[0]] != Sel(W, 1, N):
+        pr["R05.2"] = f"the target keeps {ft.sel[tdim[0]]!r} along the padded dimension; with links on both sides exactly its own n cells must remain"
+    want_base = "PARTNER" if (vector and t["partner"]) else "MAIN"
+    if fs.base != want_base:
+        pr["R05.5" if vector else "R05.1"] = f"halo taken from the {'partner' if fs.base == 'PARTNER' else 'same'} component; a {'swapped' if swap else 'same-axis'} link requires the {'partner' if want_base == 'PARTNER' else 'same'} component"
+    b_axis = AY if swap else AX
+    o_axis = AX if swap else AY
+    orth_p = [p for p in fs.sel if axis_of_dim(p) == b_axis]
+    tang_p = [p for p in fs.sel if axis_of_dim(p) == o_axis]
+    if len(orth_p) != 1 or len(tang_p) != 1:
+        raise Unmodelled("source dimensions not identified")
+    so, stg = fs.sel[orth_p[0]], fs.sel[tang_p[0]]
+    if so != e_orth:
+        if so.step != e_orth.step and so.slice(SliceV(None, None, -1)) == e_orth:
+            pr.setdefault("R05.3", f"depth order across the link is {'not ' if e_orth.step < 0 else ''}reversed but must {'' if e_orth.step < 0 else 'not '}be (orthogonal flip iff the link is reversed)")
+        else:
+            pr.setdefault("R05.1", f"source cells along the neighbour's link axis are {so!r} (pre-padded coordinates); the {t['source_edge']} edge is the linked one, so they must be {e_orth!r}")
+    if stg != e_tang:
+        pr.setdefault("R05.3", f"along-edge selection is {stg!r}; expected {e_tang!r} (mirrored exactly for an axis-swapping non-reversed link)")
+    cur_names = {p: n_ for n_, p in fs.names.items()}
+    if axis_of_dim(cur_names.get(orth_p[0])) != AX or axis_of_dim(cur_names.get(tang_p[0])) != AY:
+        pr.setdefault("R05.1", f"after the link the source's dimensions are named {cur_names}; its link axis must become the padded dimension and its other axis the along-edge dimension")
+    if vector:
+        want_neg = (t["sign_parallel"] if vector == "parallel" else t["sign_tangential"]) < 0
+        if bool(fs.neg) != want_neg:
+            pr.setdefault("R05.5", f"the {vector} component is {'negated' if fs.neg else 'not negated'} across this link; the orientation map {'reverses' if want_neg else 'keeps'} its direction")
+    elif fs.neg:
+        pr.setdefault("R05.5", "a scalar is negated across the link")
+    if ft.neg:
+        pr.setdefault("R05.5", "the target's own values are negated")
+    if fs.prepad is None or ft.prepad is None:
+        pr.setdefault("R05.4", "source or target not taken from the pre-padded array")
+    return pr
+
+
+def _self_link(ctx, P, fi, rule_of):
+    """A domain one face wide that is joined to itself: the halo must come from the face's own interior cells at
+    the opposite edge - the basic pre-padding (which obeys the axis' rule, not necessarily 'periodic') must not survive."""
+    from ..affsel import flatten_concat
+
+    table = {FACE: {0: {AX: ((0, AX, False), (0, AX, False))}}}
+    try:
+        outs = run(P, table, n_faces=1)
+    except Unmodelled as e:
+        ctx.unknown(rule_of("R05.1"), "self-link", str(e))
+        return
+    bad = None
+    for o in outs:
+        if o.kind != "return":
+            bad = f"raises {o.value}"
+            continue
+        try:
+            faces, facedim, trim = face_parts(o.value)
+            _, leaves = flatten_concat(faces[0], FACE, axis_of_dim)
+            forms = [norm_form(p) for p in leaves]
+        except Unmodelled as e:
+            ctx.unknown(rule_of("R05.1"), "self-link", str(e))
+            return
+        dx = lambda st: [s_ for p, s_ in st.sel.items() if axis_of_dim(p) == AX][0]
+        if len(forms) != 3:
+            bad = f"a face joined to itself is assembled from {len(forms)} piece(s): its halo is left to the basic pre-padding, which follows the axis' boundary rule instead of the link"
+        elif [f.face for f in forms] != [0, 0, 0] or dx(forms[0]) != Sel(N, 1, W) or dx(forms[2]) != Sel(W, 1, W) or dx(forms[1]) != Sel(W, 1, N):
+            bad = f"self-link halo pieces are {[dx(f) for f in forms]}; expected the face's own interior cells at the opposite edges"
+    if bad:
+        ctx.report(rule_of("R05.1"), fi, "link kind: face joined to itself (same axis, normal)", bad)
+    else:
+        ctx.ok(rule_of("R05.1"), "link kind: face joined to itself (same axis, normal)", "halo = own interior cells at the opposite edge, whatever the axis' rule")
+
+
+def check_single_links(ctx, P, vectors, rule_of=None, floor_rule="R05.1"):
     """Evaluate the link-kind cells for the given input kinds; rule_of maps C05 rule ids to the caller's."""
     rule_of = rule_of or (lambda r: r)
     fi = P.func("padding:_pad_face_connections")
@@ -112,16 +249,87 @@ def check_link_cells(ctx, P, vectors, rule_of=None, floor_rule="R05.1"):
                     problems.setdefault(k, v)
             if problems:
                 for rule, msg in sorted(problems.items()):
-                    ctx.report(rule_of(rule), fi, f"link kind: {kind}", msg)
+                    ctx.report(rule_of(rule), fi, f"single link: {kind}", msg)
             else:
-                ctx.ok(rule_of("R05.1" if vector is None else "R05.5"), f"link kind: {kind}", f"source {e_orth!r} along the link axis, along-edge {e_tang!r}, sign/partner as the orientation map demands")
-    ctx.floor(rule_of(floor_rule), "link-kind cells evaluated", n_cells, 8 * len(vectors))
+                ctx.ok(rule_of("R05.1" if vector is None else "R05.5"), f"single link: {kind}", f"source {e_orth!r} along the link axis, along-edge {e_tang!r}, sign/partner as the orientation map demands")
+    ctx.floor(rule_of(floor_rule), "single-link cells evaluated", n_cells, 8 * len(vectors))
+
+
+def _check_face0(chain, is_right, swap, reverse, vector, t, e_orth, e_tang, e_target):
+    pr = {}
+    padded_dim_axis = AX
+    # exactly one replacement on face 0 (only one of its sides is linked)
+    if len(chain) != 1:
+        pr["R05.6"] = f"face 0 has one linked side but {len(chain)} halo replacements were assembled"
+        return pr
+    dim, parts, kw = chain[0]
+    if axis_of_dim(dim) != padded_dim_axis:
+        pr["R05.2"] = f"the halo is concatenated along {dim!r}, not along the padded axis' dimension"
+        return pr
+    if len(parts) != 2:
+        pr["R05.2"] = f"{len(parts)} pieces concatenated, expected target and source"
+        return pr
+    forms = [norm_form(p) for p in parts]
+    # which piece is the target (face 0) and which the source (face 1)?
+    idx_t = [i for i, f in enumerate(forms) if f.face == 0]
+    idx_s = [i for i, f in enumerate(forms) if f.face == 1]
+    if len(idx_t) != 1 or len(idx_s) != 1:
+        pr["R05.1"] = f"the pieces come from faces {[f.face for f in forms]}; expected the target face 0 and the linked neighbour face 1"
+        return pr
+    ft, fs = forms[idx_t[0]], forms[idx_s[0]]
+    if (idx_s[0] == 1) != is_right:
+        pr["R05.2"] = f"the source piece is attached on the {'upper' if idx_s[0] == 1 else 'lower'} side but the {'right' if is_right else 'left'} side is being padded"
+    # target: only the padded side's pre-padding removed
+    tdim = [p for n, p in ft.names.items() if axis_of_dim(p) == AX]
+    tsel = ft.sel[tdim[0]]
+    if tsel != e_target:
+        pr.setdefault("R05.2", f"the target keeps {tsel!r} along the padded dimension; expected {e_target!r} (its pre-padded halo removed on the padded side only)")
+    for n_, p_ in ft.names.items():
+        if axis_of_dim(p_) == AY and ft.sel[p_] != Sel(0, 1, t["along_len"]):
+            pr.setdefault("R05.2", f"the target is cut along the along-edge dimension: {ft.sel[p_]!r}")
+    if ft.neg:
+        pr.setdefault("R05.5", "the target's own values are negated")
+    # source: which base array
+    want_base = "PARTNER" if (vector and t["partner"]) else "MAIN"
+    if fs.base != want_base:
+        pr["R05.5" if vector else "R05.1"] = f"halo taken from the {'partner' if fs.base == 'PARTNER' else 'same'} component; the orientation map of a {'swapped' if swap else 'same-axis'} link requires the {'partner' if want_base == 'PARTNER' else 'same'} component"
+    b_axis = AY if swap else AX
+    o_axis = AX if swap else AY
+    # physical dims of the source by axis
+    orth_p = [p for p in fs.sel if axis_of_dim(p) == b_axis]
+    tang_p = [p for p in fs.sel if axis_of_dim(p) == o_axis]
+    if len(orth_p) != 1 or len(tang_p) != 1:
+        raise Unmodelled("source dimensions not identified")
+    so, stg = fs.sel[orth_p[0]], fs.sel[tang_p[0]]
+    if so != e_orth:
+        if Sel(so.start, so.step, so.count).count == e_orth.count and so.step != e_orth.step and so.slice(SliceV(None, None, -1)) == e_orth:
+            pr.setdefault("R05.3", f"depth order across the link is {'not ' if e_orth.step < 0 else ''}reversed but must {'' if e_orth.step < 0 else 'not '}be (orthogonal flip iff the link is reversed)")
+        else:
+            pr.setdefault("R05.1", f"source cells along the neighbour's link axis are {so!r} (pre-padded coordinates); the {t['source_edge']} edge is the linked one, so they must be {e_orth!r}")
+    if stg != e_tang:
+        pr.setdefault("R05.3", f"along-edge selection is {stg!r}; expected {e_tang!r} (mirrored exactly for an axis-swapping non-reversed link)")
+    # the source piece must end up named like the target: link axis -> padded dim
+    cur_names = {p: n for n, p in fs.names.items()}
+    if axis_of_dim(cur_names.get(orth_p[0])) != AX or axis_of_dim(cur_names.get(tang_p[0])) != AY:
+        pr.setdefault("R05.1", f"after the link the source's dimensions are named {cur_names}; its link axis must become the padded dimension and its other axis the along-edge dimension")
+    # sign
+    if vector:
+        want_neg = (t["sign_parallel"] if vector == "parallel" else t["sign_tangential"]) < 0
+        if bool(fs.neg) != want_neg:
+            pr.setdefault("R05.5", f"the {vector} component is {'negated' if fs.neg else 'not negated'} across this link; the orientation map {'reverses' if want_neg else 'keeps'} its direction")
+    elif fs.neg:
+        pr.setdefault("R05.5", "a scalar is negated across the link")
+    # pre-padding of the source with the rule in force
+    if fs.prepad is None or ft.prepad is None:
+        pr.setdefault("R05.4", "source or target not taken from the pre-padded array")
+    return pr
 
 
 def check(ctx):
     P = ctx.project
     fi = P.func("padding:_pad_face_connections")
     check_link_cells(ctx, P, (None, "parallel", "tangential"))
+    check_single_links(ctx, P, (None, "parallel", "tangential"))
     _check_prepad_and_trim(ctx, P, fi)
     _check_open_edges(ctx, P, fi)
 
